@@ -83,6 +83,12 @@ RICH = [
      "settings": [{"omit_instanceID": "yes", "allow_choice_duplicates": "yes", "clean_text_values": "no"}]},
     {"survey": [{"type": "text", "name": "a", "label": "A"}],
      "settings": [{"omit_instanceID": "no", "allow_choice_duplicates": "no", "clean_text_values": "yes", "form_title": "T"}]},
+    # selects from files with parameters (spellings of the type must not matter to which parameters are allowed)
+    {"survey": [
+        {"type": "text", "name": "q", "label": "Q"},
+        {"type": "select_one_from_file f.csv", "name": "s1", "label": "S1", "parameters": "value=code label=title"},
+        {"type": "select_multiple_from_file g.xml", "name": "s2", "label": "S2", "parameters": "randomize=true seed=4", "choice_filter": "a = ${q}"},
+        {"type": "select_one_from_file h.geojson", "name": "s3", "label": "S3", "parameters": "label=nm"}]},
 ]
 
 # ---------------------------------------------------------------- transformations ----
@@ -100,6 +106,7 @@ HDR_ALIAS = {
 }
 TYPE_ALIAS = {
     "select_one": ["select one", "select1", "select one from"], "select_multiple": ["select all that apply", "select all that apply from"],
+    "select_one_from_file": ["select one from file"], "select_multiple_from_file": ["select multiple from file"],
     "integer": ["int"], "begin group": ["begin_group", "begin  group"], "end group": ["end_group"],
     "begin repeat": ["begin_repeat"], "end repeat": ["end_repeat"], "image": ["photo"], "imei": ["deviceid"],
 }
